@@ -813,3 +813,8 @@ mod tests {
         }
     }
 }
+
+// verification hook (add-only, inert unless built by `cargo kani`, which sets --cfg kani)
+#[cfg(kani)]
+#[path = "/verif/kani/s2k_harness.rs"]
+mod verif_kani;
